@@ -28,18 +28,18 @@ def emit(pid, header, imports, items, extra=""):
     out = [header, imports, "", "Close Scope Qc_scope. Close Scope Q_scope. Open Scope nat_scope.", ""]
     for name, fname, lemma, comment in items:
         out.append("(* %s *)" % comment)
-        if fname == "ContainerP":
+        if fname in ("ContainerP", "SampleFieldP"):
             out.append("Open Scope N_scope.")
         out.append("Theorem %s_%s : %s." % (pid, name, statement(fname, lemma)))
         out.append("Proof. exact (@%s). Qed." % lemma)
         out.append("Print Assumptions %s_%s." % (pid, name))
-        if fname == "ContainerP":
+        if fname in ("ContainerP", "SampleFieldP"):
             out.append("Close Scope N_scope.")
         out.append("")
     out.append(extra)
     open(os.path.join(ROOT, "coq/theories/Properties/%s.v" % pid), "w").write("\n".join(out))
 
-IMP = "From Sfs Require Import Index ArrayM Scalar Spectrum Project Create SampleParse Npy Text Container IndexP ArrayP BinomP ProjectP CreateP CreateSpecP SampleParseP SampleParseGenP ContainerP.\nFrom Coq Require Import Permutation.\nClose Scope string_scope."
+IMP = "From Sfs Require Import Index ArrayM Scalar Spectrum Project Create SampleParse Npy Text Container IndexP ArrayP BinomP ProjectP CreateP CreateSpecP SampleParseP SampleParseGenP ContainerP SampleFieldP.\nFrom Coq Require Import Permutation.\nClose Scope string_scope."
 
 emit("C08", "(* Property C08 - genotype -> allele-count classification is total and exact. Statements + exact + Print Assumptions. *)", IMP, [
  ("called_iff", "CreateP", "classify_called_iff", "a diploid genotype contributes a+b exactly when both alleles are 0 or 1 (phasing is not even an input)"),
@@ -53,6 +53,10 @@ emit("C08", "(* Property C08 - genotype -> allele-count classification is total 
  ("vcf_text_path", "ContainerP", "vcf_field_render", "VCF text path: the GT text of a sample decodes to exactly its alleles (noodles' GT parser written out), whatever the separators"),
  ("vcf_missing_field", "ContainerP", "vcf_field_render_missing", "... and the missing value '.' is 'no genotype'"),
  ("bcf_binary_path", "ContainerP", "bcf_field_hts", "BCF binary path: the int8 vector htslib writes for a genotype (any padding width) decodes to exactly its alleles"),
+ ("vcf_sample_gt_is_its_first_value", "SampleFieldP", "sample_gt_is_first_value", "VCF text path, whole sample: the genotype of a sample is its GT value, whatever other FORMAT values follow (present, missing or dropped)"),
+ ("vcf_sample_other_values_irrelevant", "SampleFieldP", "sample_gt_ignores_other_values", "... so two samples with the same GT value have the same genotype"),
+ ("vcf_sample_missing", "SampleFieldP", "sample_missing", "a sample that is '.' as a whole has no genotype"),
+ ("vcf_sample_classification", "SampleFieldP", "sample_classification", "end to end: a genotype written into a sample next to any other values is classified by its alleles"),
  ("both_paths_classify_alike", "ContainerP", "gt_container_independent", "both paths give the classification of the alleles: the VCF text path and the BCF binary path agree on every genotype"),
  ("phasing_irrelevant", "ContainerP", "gt_phasing_irrelevant", "regardless of phasing, in both paths"),
  ("bcf_missing_field_was_ploidy_error", "ContainerP", "gt_container_v0_refuted", "refutation kept on record (F16): before the repair the missing field was a ploidy error in BCF and missing in VCF"),
@@ -120,6 +124,8 @@ emit("C01", "(* Property C01 - create counts every complete site once at its per
  ("shape", "CreateSpecP", "map_shape_spec", "shape (2 n_1 + 1, ..., 2 n_d + 1)"),
  ("unselected_never_influence", "CreateP", "read_site_unselected_irrelevant", "samples that were not selected never influence the result (value and error status)"),
  ("mass_is_counted_records", "CreateP", "run_conservation", "values are counts: total = records - skipped"),
+ ("genotype_is_the_gt_value_only", "SampleFieldP", "sample_gt_ignores_other_values", "extra FORMAT fields: a sample's genotype is its GT value; the other values of the sample (present, missing, dropped) never influence it"),
+ ("genotype_of_a_rendered_sample", "SampleFieldP", "sample_classification", "... and it is classified by its alleles"),
 ])
 
 emit("C02", "(* Property C02 - create --project: hypergeometric down-sampling of every covered site. *)", IMP, [
